@@ -554,6 +554,9 @@ pub struct ScriptWire {
     pub sim_read_latency_ns: u64,
     /// The next write blocks for this long in REAL time (a UART draining its FIFO), once.
     pub real_delay_next_write: Option<Duration>,
+    /// The write at this port operation index accepts nothing (`Ok(0)` for a non-empty buffer).
+    pub zero_at: Option<usize>,
+    pub zero_fired: bool,
     /// The k-th `flush` call (counted from 0) fails with this kind, once.
     pub flush_fail_at: Option<(usize, io::ErrorKind)>,
     pub flushes: usize,
@@ -609,6 +612,8 @@ impl ScriptWire {
             real_delay_next_read: None,
             sim_read_latency_ns: 0,
             real_delay_next_write: None,
+            zero_at: None,
+            zero_fired: false,
             flush_fail_at: None,
             flushes: 0,
             flush_failed: false,
@@ -677,6 +682,10 @@ impl Wire for ScriptWire {
         } else if self.maybe_eintr() {
             Err(io::Error::new(io::ErrorKind::Interrupted, "simulated EINTR"))
         } else if buf.is_empty() {
+            Ok(0)
+        } else if self.zero_at == Some(idx) {
+            self.cx.fault("write_zero");
+            self.zero_fired = true;
             Ok(0)
         } else {
             let n = if self.short_writes {
